@@ -1583,7 +1583,7 @@ def l2_execute(case):
         defaulted = any(v is None and w is not None for v, w in zip(values, written))
         if defaulted:
             out.label("default-filled")
-        _judge(out, "l2_reactor", written, read, "db", strict=not defaulted)
+        _judge(out, "l2_reactor", written, read, "db", strict=not defaulted and _strict_kind(col, written))
     finally:
         db.close(True)
         if os.path.exists(fn):
